@@ -80,6 +80,15 @@ func (array *Array) Size() int {
 	return len(array.msgs)
 }
 
+// Rewound returns a reader over the same messages that starts at the first one and has a read position of its own,
+// so that a reply can be read without moving the read position of the array it belongs to.
+func (array *Array) Rewound() *Array {
+	return &Array{
+		index: 0,
+		msgs:  array.msgs,
+	}
+}
+
 // Next returns a next message.
 func (array *Array) Next() (*Message, error) {
 	if array.Size() <= array.index {
